@@ -485,10 +485,31 @@ fn item_line(item: &str) -> Option<String> {
 
 /// run the given `C07.repeat` lines, in this order, in ONE fresh process; (digest, shown) per line
 fn in_fresh_process(lines: &[String], tag: &str) -> Option<Vec<(String, String)>> {
+    in_fresh_process_opt(lines, tag, false)
+}
+
+/// first line in which two emitted texts differ
+fn first_difference(a: &str, b: &str) -> String {
+    let (la, lb): (Vec<&str>, Vec<&str>) = (a.lines().collect(), b.lines().collect());
+    for i in 0..la.len().max(lb.len()) {
+        let (x, y) = (la.get(i).copied().unwrap_or("<end>"), lb.get(i).copied().unwrap_or("<end>"));
+        if x != y {
+            return format!("first difference in line {}: `{}` (after the history) vs `{}` (alone)", i + 1, clip(x.trim(), 200), clip(y.trim(), 200));
+        }
+    }
+    "texts equal".into()
+}
+
+fn in_fresh_process_opt(lines: &[String], tag: &str, full_text: bool) -> Option<Vec<(String, String)>> {
     let tmp = std::env::temp_dir().join(format!("c07-hist-{}-{}.txt", std::process::id(), tag));
     std::fs::write(&tmp, lines.join("\n") + "\n").ok()?;
     let exe = std::env::current_exe().ok()?;
-    let output = std::process::Command::new(&exe).args(["c07", "--requests", tmp.to_str()?, "child"]).output();
+    let mut cmd = std::process::Command::new(&exe);
+    cmd.args(["c07", "--requests", tmp.to_str()?, "child"]);
+    if full_text {
+        cmd.env("C07_CHILD_TEXT", "1");
+    }
+    let output = cmd.output();
     let _ = std::fs::remove_file(&tmp);
     let output = output.ok()?;
     let text = String::from_utf8_lossy(&output.stdout);
@@ -571,7 +592,16 @@ fn run_history(line: &str, out: &mut Out, hist: &mut Hist) {
         };
         for (pos, k) in order.iter().enumerate() {
             if got[pos].0 != alone[*k].0 && fail.is_none() {
-                fail = Some(describe(*k, &order[..pos], &got[pos].0, &got[pos].1, &format!("in one fresh process ({})", name)));
+                let mut f = describe(*k, &order[..pos], &got[pos].0, &got[pos].1, &format!("in one fresh process ({})", name));
+                if got[pos].0.starts_with("ok") && alone[*k].0.starts_with("ok") {
+                    // both accepted: run the two processes again for the emitted text and name the first differing line
+                    let again = in_fresh_process_opt(&seq[..pos + 1], "t", true);
+                    let single = in_fresh_process_opt(std::slice::from_ref(&lines[*k]), "u", true);
+                    if let (Some(a), Some(b)) = (again, single) {
+                        f = format!("{}; {}", f, first_difference(&unescape(&a[pos].1), &unescape(&b[0].1)));
+                    }
+                }
+                fail = Some(f);
             }
         }
     }
@@ -622,9 +652,14 @@ fn parse_req(line: &str) -> Option<(Tgt, Mode, String)> {
 
 /// child mode: print one digest per request and nothing else
 fn child(lines: &[String]) {
+    let full = std::env::var("C07_CHILD_TEXT").is_ok();
     for line in lines {
         if let Some((t, m, id)) = parse_req(line) {
             match compile_id(&id, t, &m) {
+                Some(CompileOutcome::Ok(ps)) if full => {
+                    let text: Vec<String> = ps.iter().map(|p| format!("{}\nstages: {:?}\nmeta: {}\nstate: {}", p.text(), p.stages, p.metadata, p.state)).collect();
+                    println!("DIGEST\t{}\t{}", CompileOutcome::Ok(ps).digest(), one_line(&text.join("\n-- next pipeline --\n")))
+                }
                 Some(o) => println!("DIGEST\t{}\t{}", o.digest(), one_line(&show(&o))),
                 None => println!("DIGEST\tbad\tbad"),
             }
